@@ -49,4 +49,21 @@ theorem facts_deadline_is_next_tick :
     Facts.cycleTickers.length = 2 ∧ Facts.cycleDeadlineAdd.length = 2 ∧ Facts.cycleRequestLastArg.length = 2 := by
   decide
 
+/-- **A cycle runs under the component's own context.**  The ticker loop calls `refresh(ctx, …)` / `revive(ctx, …)` with
+the one context `run` creates (`context.WithCancel(context.Background())`, cancelled on stop), and neither file derives
+a context with a deadline or timeout: a cycle is
+never cut short by a wall-clock bound, so "every selected server gets its probe" (`refresh_exact`, `revive_exact`) does
+not depend on how long the cycle takes.  *Edit detected:* wrapping each cycle in `context.WithTimeout(ctx, 5*time.Second)`
+(a registry of a few thousand servers on a slow store: the servers after the cut get no probe, the cycle logs success). -/
+theorem facts_cycle_context :
+    Facts.cycleCalls =
+      [("refresher.go", "run", "refresh", "ctx, clock, logger, uc, cfg"),
+       ("reviver.go", "run", "revive", "ctx, clock, logger, uc, cfg")] ∧
+    Facts.cycleContextCalls =
+      [("refresher.go", "run", "context.WithCancel", "context.Background()"),
+       ("refresher.go", "run", "context.Background", ""),
+       ("reviver.go", "run", "context.WithCancel", "context.Background()"),
+       ("reviver.go", "run", "context.Background", "")] := by
+  decide
+
 end Swat4.C15
